@@ -69,7 +69,19 @@ def gen_strings(rnd, alpha):
         for p in pres:
             for kk in rnd.sample([1, 2, 3, 4], rnd.randint(1, 3)):
                 out.append(p + t * kk + (runs(1) if rnd.random() < 0.25 else []))
-    elif shape < 0.12:        # independent words made of runs
+    elif shape < 0.10:        # one position varies over 3-5 CONSECUTIVE code points (a class printed as a range; the
+        base = word(1, 3)     # run is placed so that alphabet members, e.g. ^ [ ] \ -, fall on its boundaries: seed C02d)
+        pos = rnd.randint(0, len(base) - 1)
+        c0 = rnd.choice([t for t in alpha if not isinstance(t, tuple)] or [97])
+        n_ = rnd.randint(3, 5)
+        lo = max(1, c0 - rnd.choice([0, 0, n_ - 1, 1]))
+        for x in range(lo, lo + n_):
+            if 0xd800 <= x <= 0xdfff or x > 0x10ffff:
+                continue
+            out.append(base[:pos] + [x] + base[pos + 1:])
+        for _ in range(rnd.randint(0, 2)):
+            out.append(word(1, 3))
+    elif shape < 0.14:        # independent words made of runs
         for _ in range(rnd.randint(3, 7)):
             out.append(runs(rnd.randint(1, 4)))
     elif shape < 0.35:        # shared prefix/suffix families
